@@ -32,5 +32,12 @@ m = {
     "not_applicable": NOT_APPLICABLE,
     "notes": "See DESIGN.md. known_findings.json lists genuine defects of the pinned tree that are recorded rather than repaired.",
 }
+# merged index of the committed known-findings files known/Cxx.json (never written at run time)
+kf = {"findings": [], "fixed": []}
+for f in sorted((V / "known").glob("C*.json")):
+    d = json.loads(f.read_text())
+    kf["findings"].extend(d.get("findings", []))
+    kf["fixed"].extend(d.get("fixed", []))
+(V / "known_findings.json").write_text(json.dumps(kf, indent=1) + "\n")
 (V / "MANIFEST.json").write_text(json.dumps(m, indent=1) + "\n")
 print("MANIFEST.json: %d checks, %d not_applicable" % (len(checks), len(NOT_APPLICABLE)))
